@@ -19,8 +19,6 @@ def causes(E, V, depth=0):
     out = set()
     if isinstance(E, dict) and E and isinstance(V, dict) and not V:
         out.add("empty-text-object-vs-nonempty-object")
-    if isinstance(E, dict) and isinstance(V, list) and contains_obj(V):
-        out.add("text-array-holding-object-vs-object")
     if isinstance(E, dict) and E and isinstance(V, dict) and V:
         for k in E:
             if k in V:
@@ -81,23 +79,9 @@ def run(tier):
     rows = [[str(i), hexs(r["e"]), hexs(r["v"]), T.canon(r["schema"]), T.canon(r["schema2"])] +
             ([hexs(r["v2"]), T.canon(r["schema12"])] if "v2" in r else []) for i, r in enumerate(recs)]
     # leak detection off here: the leak of the previous schema buffer on repeated ParseSchema is a C13 matter
-    # pairs on which the recorded memory-corrupting deviation can act are replayed in a pass of their own, so that their
-    # crashes cannot use up the restart budget of the main pass (each crash ends a replayer process)
-    def may_crash(r):
-        try:
-            E, V = json.loads(bytes.fromhex(r[1])), json.loads(bytes.fromhex(r[2]))
-            if "text-array-holding-object-vs-object" in causes(E, V):
-                return True
-            return len(r) >= 7 and "text-array-holding-object-vs-object" in causes(merge_ref(E, V), json.loads(bytes.fromhex(r[5])))
-        except Exception:
-            return False
     env = {"ASAN_OPTIONS": "detect_leaks=0:abort_on_error=0:exitcode=97:allocator_may_return_null=1"}
-    main_idx = [i for i, r in enumerate(rows) if not may_crash(r)]
-    risky_idx = [i for i, r in enumerate(rows) if may_crash(r)]
-    f1 = M.run_merge(ctx, "schema", [rows[i] for i in main_idx], builds, None, "", extra_env=env, tag="main")
-    f2 = M.run_merge(ctx, "schema", [rows[i] for i in risky_idx], builds, None, "", extra_env=env, max_restarts=100000, tag="risky")
-    fails = [(b, main_idx[i], k, d) for b, i, k, d in f1] + [(b, risky_idx[i], k, d) for b, i, k, d in f2]
-    ctx.log(f"main pass {len(main_idx)} pairs, separate pass {len(risky_idx)} pairs on which the recorded deviation C19-text-array-holding-object can act")
+    f1 = M.run_merge(ctx, "schema", rows, builds, None, "", extra_env=env, tag="main")
+    fails = list(f1)
     for b, idx, kind, detail in fails:
         row = rows[idx]
         e, v = bytes.fromhex(row[1]), bytes.fromhex(row[2])
